@@ -29,6 +29,15 @@ def gen_vn():
     if not m:
         raise Fail("best: the stop test `imbalance <= nearest_weight || nearest_weight.is_zero()` not found")
     out += "Definition vnbest_stop_when_not_below : bool := %s.\n" % coq_bool(m.group(1) == "<=")
+    # the progress test of fix 98041ea, between the stop test and the move
+    i_stop = _pos(r"if\s+imbalance\s*<=\s*nearest_weight", b, "best: stop test")
+    mg = re.search(r"let\s+new_overweight_load\s*=\s*part_loads\[overweight_part\]\s*-\s*nearest_weight;\s*"
+                   r"let\s+mut\s+new_underweight_load\s*=\s*part_loads\[underweight_part\];\s*"
+                   r"new_underweight_load\s*\+=\s*nearest_weight;\s*"
+                   r"if\s+new_overweight_load\s*<\s*new_underweight_load\s*&&\s*"
+                   r"!\(new_underweight_load\s*-\s*new_overweight_load\s*<\s*imbalance\)\s*\{\s*break;", b)
+    out += "Definition vnbest_progress_test : bool := %s.\n" % coq_bool(
+        mg is not None and i_stop < mg.start() < i_wr)
     out += "Definition vnbest_move : bool := %s.\n" % coq_bool(
         re.search(r"part_loads\[overweight_part\]\s*=\s*part_loads\[overweight_part\]\s*-\s*nearest_weight", b) is not None
         and re.search(r"part_loads\[underweight_part\]\s*\+=\s*nearest_weight", b) is not None)
@@ -92,8 +101,9 @@ PROP = dict(
     ],
     assumptions=[
         "f64 reading of the property: exact arithmetic on the f64 values, gap(out) <= gap(in) + total/2^45 (accumulated "
-        "rounding); the strict exact statement is refuted (C14_vnfirst_f64_exact_gap_refuted) and termination of VnBest on "
-        "f64 weights is refuted (C14_vnbest_f64_terminates_refuted; known finding vnbest-f64-oscillation)",
+        "rounding); the strict exact statement is refuted (C14_vnfirst_f64_exact_gap_refuted: one rounding error, 2^-54). "
+        "Termination of VnBest on f64 weights: refuted for the loop before fix 98041ea (C14_vnbest_f64_terminates_refuted, "
+        "kept as a regression witness), NOT proved for the current loop (validated by the f64 stream: a hang is a rejection)",
         "f64: SpecFloat SFadd/SFsub/SFdiv/SFltb/SFeqb at (53,1024) are the CPU's binary64 operations (validated bit-for-bit "
         "on every genuine-f64 case); rayon's fold/reduce on a 1-thread pool splits the index range once, in the middle",
         "weights are non-negative integers (i64, or f64 holding integers below 2^53) whose sums do not overflow",
@@ -113,12 +123,14 @@ MANIFEST = dict(
          "weights; on errors the array must be untouched) and a checker proved equivalent to the property judges every output; "
          "guards and comparison operators the models hard-code are re-read from the source on every run (C14_source_literals). "
          "Both algorithms are also modelled over an abstract weight arithmetic and run on genuine f64 inputs bit-for-bit: the "
-         "guards survive (C14_vnbest_negative_generic), but with rounding VnBest need not terminate "
-         "(C14_vnbest_f64_terminates_refuted: it oscillates for ever on 0.2 0.8 0.9 0.1 0.1 / 1 1 0 1 0 -- confirmed on the "
-         "real code, known finding) and VnFirst can raise the exact gap by a rounding error "
+         "guards survive (C14_vnbest_negative_generic); with rounding the loop before fix 98041ea need not terminate "
+         "(C14_vnbest_f64_terminates_refuted, regression witness: it oscillates for ever on 0.2 0.8 0.9 0.1 0.1 / 1 1 0 1 0); "
+         "the progress test of that fix is part of the models, never fires on integers "
+         "(C14_vnbest_progress_test_idle_on_integers) and ends the witness at once (C14_vnbest_f64_fixed_example); "
+         "VnFirst can raise the exact gap by a rounding error "
          "(C14_vnfirst_f64_exact_gap_refuted); the integer theorems stand as stated for i64 and integer-valued f64.",
     design_ref="DESIGN.md §7 C14",
-    note="Trusted: Coq kernel; model<->code tie = translator (10 literals) + differential runs (4k/40k cases); itertools minmax "
+    note="Trusted: Coq kernel; model<->code tie = translator (11 literals) + differential runs (4k/40k cases); itertools minmax "
          "and binary_search contracts as listed; no axioms.",
     technique="Coq proof (loop invariants; decreasing sum of squares; invariant on tracked vs true loads for VnFirst) + translator "
               "+ model/implementation correspondence + certified checker",
